@@ -3,7 +3,7 @@
      Handle(b, inIf): the pipeline of Handler.HandleBeacon (interface lookup, PreFilter,
                       validateASEntry, verifySegment, InsertBeacon with Usage) decides "stored" or drops;
      Propagate:       Propagator.beaconsPerInterface: every stored beacon with usage Prop is sent over
-                      every propagation interface unless shouldIgnore (FilterLoop with the neighbour).
+                      every propagation interface unless shouldIgnore (FilterLoop over beacon ASes, local AS, neighbour).
    Every behaviour handles one beacon case and then propagates: the cases are independent (the store
    semantics across beacons is C27's), so TLC enumerates the complete table
        configurations x beacons (all ISD-AS sequences incl. loops) x next x bad signatures x ingress interface
@@ -14,6 +14,7 @@ EXTENDS BeaconStoreOps, TLC, Json
 CONSTANTS MaxLen,     \* beacons up to MaxLen AS entries, full cross product with next / bad / interface
           ExtraLen,   \* beacons of length MaxLen+1..ExtraLen only with next = local and good signatures
           NCfg,       \* number of configurations used
+          LocalInLoopCheck,  \* TRUE: the design (local AS part of the loop test); FALSE: the code before the fix
           Gen
 
 VARIABLES cfg, stored, sent, pc, last
@@ -82,7 +83,8 @@ HandleExtra == \E h \in HopSeqs(MaxLen + 1, ExtraLen), inIf \in InIfs : Handle(B
 
 Propagate ==
     /\ pc = "prop"
-    /\ sent' = UNION {{[b |-> e.b, eg |-> x.id] : x \in {y \in PropIfs : MayPropagate(e.b.hops, y.nbr, C.pIsdLoop)}}
+    /\ sent' = UNION {{[b |-> e.b, eg |-> x.id] : x \in {y \in PropIfs : IF LocalInLoopCheck THEN MayPropagate(e.b.hops, C.local, y.nbr, C.pIsdLoop)
+                                                              ELSE MayPropagateNoLocal(e.b.hops, y.nbr, C.pIsdLoop)}}
                        : e \in {s \in stored : 8 \in s.usage}}
     /\ pc' = "done"
     /\ UNCHANGED <<cfg, stored, last>>
@@ -119,7 +121,7 @@ StoredConforms ==
 SentNoLoop ==
     \A s \in sent :
         LET x == CHOOSE y \in Ifs : y.id = s.eg
-            path == Append(s.b.hops, x.nbr) IN
+            path == Append(Append(s.b.hops, C.local), x.nbr) IN
         /\ NoRepeat(path)
         /\ C.pIsdLoop \/ NoIsdReentry(path)
 
